@@ -47,7 +47,7 @@ fn main() {
 		// connection drop / stop injected at every position of base scripts
 		for base in &bases {
 			for pos in 1..base.len() {
-				for fault in ["ss connclose 0 abrupt", "ss connclose 0 graceful", "ss stop"] {
+				for fault in ["ss connclose 0 abrupt", "ss connclose 0 graceful", "ss connclose 0 dropfut", "ss stop"] {
 					if fault == "ss stop" && pos % 2 == 0 {
 						continue;
 					}
